@@ -258,6 +258,7 @@ var (
 	wdTimeout = 60 * time.Second
 	wdOutDir  string
 	wdReplay  any
+	wdCW      *CaseWriter
 )
 
 func call(name string, f func()) {
@@ -271,6 +272,16 @@ func call(name string, f func()) {
 		delete(wdCalls, id)
 		wdMu.Unlock()
 		progress.Add(1)
+		if r := recover(); r != nil { // a panic of the code under test: report, keep going so the trace is judged
+			msg := fmt.Sprint(r)
+			if len(msg) > 120 {
+				msg = msg[:120]
+			}
+			wdMu.Lock()
+			rep := wdReplay
+			wdMu.Unlock()
+			violate("C12/panic-in-"+name+":"+msg, fmt.Sprintf("operation %s panicked: %v", name, r), rep)
+		}
 	}()
 	f()
 }
@@ -301,6 +312,9 @@ func watchdog(finish func()) {
 			violate("C12/call-did-not-return:"+stuck[0],
 				fmt.Sprintf("operation(s) %v did not return within %s while no call, upload or listing completed anywhere in the process for %s (deadlock or leaked lock); goroutine dump in %s", stuck, wdTimeout, wdTimeout/3, p),
 				rep)
+			if wdCW != nil {
+				emitTrace(wdCW, "watchdog") // what was recorded up to the deadlock is judged too
+			}
 			finish()
 			os.Exit(0)
 		}
@@ -1315,6 +1329,71 @@ func scenarioHalfInit(out string) (detail string, err error) {
 	return fmt.Sprintf("passes: init under a cancelled context failed cleanly (%v); the next Sync initialised, replicated to TXID %d, restore = source", e1, pos.TXID), nil
 }
 
+// ---- scenario: every operation once, sequentially (its lock trace is written out first) ----------
+
+func scenarioBasic(out string) (detail string, err error) {
+	dir := filepath.Join(out, "basic") + "/"
+	_ = os.RemoveAll(dir)
+	e := &episode{dir: dir, dbPath: filepath.Join(dir, "src", "db.sqlite"), repDir: dir + "rep", arcDir: dir + "arc", snapDir: dir + "snaps",
+		c: cfg{MinCkptPages: 5, TruncPages: 40}}
+	for _, d := range []string{filepath.Dir(e.dbPath), e.repDir, e.arcDir, e.snapDir} {
+		_ = os.MkdirAll(d, 0o755)
+	}
+	app, err := openApp(e.dbPath, 2)
+	if err != nil {
+		return "", err
+	}
+	defer app.Close()
+	if _, err = app.Exec(`CREATE TABLE t(id INTEGER PRIMARY KEY, w INTEGER, v BLOB)`); err != nil {
+		return "", err
+	}
+	cw, err := NewCaseWriter(filepath.Join(out, "cases_basic.txt"))
+	if err != nil {
+		return "", err
+	}
+	traceReset()
+	e.store = litestream.NewStore(nil, levels())
+	e.store.CompactionMonitorEnabled = false
+	e.store.ShutdownSyncTimeout = 0
+	e.store.Logger = QuietLogger()
+	ctx := context.Background()
+	db := e.newDB()
+	db.MonitorInterval = 0
+	n := 0
+	do := func(name string, f func() error) {
+		call(name, func() { _ = f() })
+		n++
+	}
+	write := func() {
+		for i := 0; i < 12; i++ {
+			_, _ = app.Exec(`INSERT INTO t(w, v) VALUES (1, randomblob(3000))`)
+		}
+	}
+	do("RegisterDB", func() error { return e.store.RegisterDB(db) })
+	write()
+	do("Sync", func() error { return db.Sync(ctx) })
+	do("ReplicaSync", func() error { return db.Replica.Sync(ctx) })
+	write()
+	do("SyncDBWait", func() error { _, err := e.store.SyncDB(ctx, e.dbPath, true); return err })
+	do("CheckpointPassive", func() error { return db.Checkpoint(ctx, litestream.CheckpointModePassive) })
+	write()
+	do("CheckpointTruncate", func() error { return db.Checkpoint(ctx, litestream.CheckpointModeTruncate) })
+	do("Snapshot", func() error { _, err := db.Snapshot(ctx); return err })
+	do("CompactL1", func() error { _, err := db.Compact(ctx, 1); return err })
+	do("CRC64", func() error { _, _, err := db.CRC64(ctx); return err })
+	do("Status", func() error { _ = db.IsOpen(); _ = db.PageSize(); _ = e.store.DBs(); return nil })
+	do("DisableDB", func() error { return e.store.DisableDB(ctx, e.dbPath) })
+	do("EnableDB", func() error { return e.store.EnableDB(ctx, e.dbPath) })
+	write()
+	do("SyncAndWait", func() error { return db.SyncAndWait(ctx) })
+	do("UnregisterDB", func() error { return e.store.UnregisterDB(ctx, e.dbPath) })
+	do("StoreClose", func() error { return e.store.Close(ctx) })
+	ev := emitTrace(cw, "basic")
+	_ = cw.Close()
+	_ = os.RemoveAll(dir)
+	return fmt.Sprintf("%d operations in sequence, %d lock events", n, ev), nil
+}
+
 // ---- main -----------------------------------------------------------------------------
 
 func main() {
@@ -1358,7 +1437,7 @@ func cmdConc(args []string) error {
 		return err
 	}
 	var results []epResult
-	var f9detail, sddetail, hidetail, rsdetail, rtdetail string
+	var f9detail, sddetail, hidetail, rsdetail, rtdetail, bsdetail string
 	finish := func() {
 		_ = cw.Close()
 		st := cw.Stats()
@@ -1371,12 +1450,20 @@ func cmdConc(args []string) error {
 				tot[k] += v
 			}
 		}
-		st.Extra = map[string]any{"episodes": results, "ops_total": tot, "f9": f9detail, "snapdup": sddetail, "halfinit": hidetail, "regsched": rsdetail, "regstress": rtdetail, "trace_hook": traceEnabled, "trace_events_total": traceTotal}
+		st.Extra = map[string]any{"episodes": results, "ops_total": tot, "f9": f9detail, "snapdup": sddetail, "halfinit": hidetail, "regsched": rsdetail, "regstress": rtdetail, "basic": bsdetail, "trace_hook": traceEnabled, "trace_events_total": traceTotal}
 		_ = WriteJSON(filepath.Join(*out, "stats.json"), st)
 	}
+	wdCW = cw
 	go watchdog(finish)
 	// the discipline check of the transcribed operations, evaluated by the extracted model
 	cw.Add("conc_progs_checked", L(), I(1), "model/discipline-check", false)
+	if *only < 0 {
+		if d, err := scenarioBasic(*out); err != nil {
+			bsdetail = "scenario could not be set up: " + err.Error()
+		} else {
+			bsdetail = d
+		}
+	}
 	if *regsched > 0 && *only < 0 {
 		rsdetail = scenarioRegSched(*out, *regsched, cw)
 	}
